@@ -79,8 +79,12 @@ type Sim struct {
 	MaxFrame     int
 	HoldTime     time.Duration // how long a data frame stays "outstanding"
 	RefuseReg    bool
-	ConnectReply string       // "ok", "refuse", "precondition"
-	ShortReply   map[byte]int // reply kind -> its data field is cut to this many bytes (a malformed reply to a request)
+	ConnectReply string // "ok", "refuse", "precondition"
+	// Log: what the TNC saw of the transmit side, in order: "D" (a data frame of n bytes arrived), "Y" (a poll, answered n
+	// outstanding frames), and the driver's notes ("writeCall", "writeRet", "flushCall", "flushRet", "closeCall")
+	Log []TxLogItem
+
+	ShortReply map[byte]int // reply kind -> its data field is cut to this many bytes (a malformed reply to a request)
 
 	Received  []Frame // every frame the TNC received, in order
 	dataAt    []time.Time
@@ -88,6 +92,24 @@ type Sim struct {
 	closed    bool
 	ready     chan struct{}
 	OnFrame   func(f Frame)
+}
+
+type TxLogItem struct {
+	K string `json:"k"`
+	V int    `json:"v"`
+}
+
+// Note adds a driver event to the transmit log.
+func (s *Sim) Note(k string, v int) {
+	s.mu.Lock()
+	s.Log = append(s.Log, TxLogItem{k, v})
+	s.mu.Unlock()
+}
+
+func (s *Sim) TxLog() []TxLogItem {
+	s.mu.Lock()
+	defer s.mu.Unlock()
+	return append([]TxLogItem(nil), s.Log...)
 }
 
 func NewSim() (*Sim, error) {
@@ -183,6 +205,9 @@ func (s *Sim) serve() {
 		s.mu.Lock()
 		s.Received = append(s.Received, f)
 		s.dataAt = append(s.dataAt, time.Now())
+		if f.Kind == 'D' {
+			s.Log = append(s.Log, TxLogItem{"D", len(f.Data)})
+		}
 		cb := s.OnFrame
 		s.mu.Unlock()
 		if cb != nil {
@@ -214,6 +239,7 @@ func (s *Sim) serve() {
 		case 'Y':
 			s.mu.Lock()
 			n := s.outstanding(f.From, f.To)
+			s.Log = append(s.Log, TxLogItem{"Y", n})
 			s.mu.Unlock()
 			d := make([]byte, 4)
 			binary.LittleEndian.PutUint32(d, uint32(n))
